@@ -7,6 +7,7 @@ use vmodel::engine::{Failure, ShardCtx, Tier, Verdict};
 
 pub mod common;
 pub mod declcommon;
+pub mod fuzzdrv;
 pub mod c01;
 pub mod c02;
 pub mod c03;
@@ -24,7 +25,7 @@ pub mod c14;
 pub mod c15;
 pub mod c16;
 pub mod c17;
-pub mod lockstep;
+pub use vmodel::lockstep;
 
 pub enum PrepError {
     Violation(Failure),
